@@ -53,9 +53,9 @@ PROPERTY_BOUNDED = {
     'C10': ['adjust', 'adjust_dups'], 'C05': ['decode_extreme'], 'C02': ['decode_document'], 'C15': ['sourceview'], 'C17': ['function_name'], 'C18': ['discover'], 'C19': ['relpath'], 'C20': ['ram_bundle'],
 }
 # harnesses that count their non-trivial expectations (a token found, a name resolved, ...): 0 of them means the run proves nothing
-NEEDS_WITNESS = {'function_name', 'relpath', 'discover', 'sourceview', 'ram_bundle', 'index_flatten', 'index_nested', 'hermes_scope'}
+NEEDS_WITNESS = {'decode_mutants', 'function_name', 'relpath', 'discover', 'sourceview', 'ram_bundle', 'index_flatten', 'index_nested', 'hermes_scope'}
 ALL_HARNESSES = ['vlq_encode', 'vlq_decode', 'lookup', 'ordering', 'header', 'hermes_scope', 'index_flatten', 'index_nested', 'rewrite', 'hermes_rewrite', 'raw_keys', 'roundtrip',
-                 'rmi_roundtrip', 'root_setters', 'builder_model', 'relpath', 'discover', 'sourceview', 'function_name', 'ram_bundle', 'decode_extreme', 'decode_document', 'adjust', 'adjust_dups']
+                 'rmi_roundtrip', 'root_setters', 'builder_model', 'relpath', 'discover', 'sourceview', 'function_name', 'ram_bundle', 'decode_extreme', 'decode_document', 'decode_mutants', 'adjust', 'adjust_dups']
 # C05 (nothing panics) runs every harness -- each of them catches panics of the code under test -- but only a panic counts for it
 PROPERTY_BOUNDED['C05'] = list(ALL_HARNESSES)
 PANIC_ONLY = {'C05'}
